@@ -231,7 +231,21 @@ def run_case(a):
                 viol.append(("C13 transform=%s changes-%s file=%s" % (tf.__name__, dk, f),
                              "after %s (%s-preserving) %s differs in %s" % (tf.__name__, "everything" if kind == "noise" else "declaration-set", f, dk),
                              proj.witness_of(base_list, mode, extra={"transformed": [[p, t] for p, t in compound.render(f2)], "transform": tf.__name__})))
-        return {"viol": viol, "runs": stats["runs"], "bytes": len(stats["distinct_bytes"]), "orders": len(stats["distinct_orders"]), "graph_pairs": stats.get("graph_file_pairs_compared", 0),
+            if tno % 2 == 0:
+                # the same transformed sources once more, this time IN PLACE: the project directory and the output directory of the
+                # earlier state (its files, its cache record) are re-used, the run is not forced. Identical sources and settings —
+                # identical files, whatever the directory remembers
+                import shutil as _sh
+                _sh.rmtree(_os.path.join(root, "src"), ignore_errors=True)
+                o2, err2 = gen_out(cli, root, compound.render(f2), mode, hs0 + 11, "base")
+                stats["runs"] += 1
+                stats["in_place_reruns"] = stats.get("in_place_reruns", 0) + 1
+                if o2 is not None:
+                    for (f, dk) in diff_kind(o, o2):
+                        viol.append(("C13 history-of-the-output-directory-changes-%s transform=%s file=%s" % (dk, tf.__name__, f),
+                                     "the sources after %s generated into a fresh directory and (not forced) into the directory that holds the earlier state's output: %s differs (%s)" % (tf.__name__, f, dk),
+                                     proj.witness_of(base_list, mode, extra={"transformed": [[p, t] for p, t in compound.render(f2)], "transform": tf.__name__, "in_place": True})))
+        return {"viol": viol, "runs": stats["runs"], "bytes": len(stats["distinct_bytes"]), "orders": len(stats["distinct_orders"]), "graph_pairs": stats.get("graph_file_pairs_compared", 0), "in_place": stats.get("in_place_reruns", 0),
                 "files": len(files), "items": sum(len(v) for v in files.values())}
     finally:
         common.rmtree(root)
@@ -258,6 +272,7 @@ def run(tier):
                                                                     "process_runs": r["runs"], "distinct_outputs": r["bytes"], "distinct_declaration_orders": r["orders"]})
         v.count("process_runs", r["runs"])
         v.count("graph_files_compared_across_hash_seeds", r.get("graph_pairs", 0))
+        v.count("in_place_reruns_over_an_earlier_state", r.get("in_place", 0))
         tot_bytes += r["bytes"]
         tot_orders += r["orders"]
         if r["orders"] > 1:
